@@ -966,8 +966,18 @@ def gen_selections(rng, npages: int) -> List[Tuple[Optional[List[int]], int]]:
             sel = [n - 1]
         else:
             sel = sorted(set(rng.randrange(n + 2) for _ in range(rng.randint(1, n + 1))))
+        v = rng.random()
+        if sel and v < 0.12:
+            sel = sel + [rng.choice(sel)] + sel[:1]             # duplicates (a list, not a set)
+            rng.shuffle(sel)
+        elif v < 0.22:
+            sel = list(sel) + [rng.choice([-1, -2, -n, n, n + 7, 10 ** 6])]     # not a page index
+        elif v < 0.28:
+            sel = [rng.choice([-1, -n - 1, n, n + 3])]          # non-empty, selects nothing
         k = rng.random()
-        if k < 0.25:
+        if k < 0.04:
+            mp = -rng.randint(1, 3)                             # outside the domain: tie only
+        elif k < 0.25:
             mp = 0
         elif k < 0.4:
             mp = 1
@@ -1099,18 +1109,30 @@ class DocCheck:
                 container: Any = None if sel is None else (set(sel) if idx % 2 else list(sel))
                 got, e2 = impl_pages(data, container, mp)
                 got_s = join_pages(got, e2)
-                self.req(f"pages {sel_txt(sel)} {mp}", got_s, "select",
-                         {"doc": doc, "selection": {"page_numbers": sel, "maxpages": mp}})
-                if self.in_domain and e2 is None:
-                    self.req(f"spec.select {sel_txt(sel)} {mp}", got_s, "spec.select",
-                             {"doc": doc, "selection": {"page_numbers": sel, "maxpages": mp}})
+                sel_inp = {"doc": doc, "selection": {"page_numbers": sel, "maxpages": mp}}
+                dom = self.in_domain and mp >= 0          # a negative maxpages is outside the property's domain
+                plain = mp >= 0 and (sel is None or (all(i >= 0 for i in sel) and len(set(sel)) == len(sel)))
+                if plain:
+                    self.req(f"pages {sel_txt(sel)} {mp}", got_s, "select", sel_inp)
+                    if dom and e2 is None:
+                        self.req(f"spec.select {sel_txt(sel)} {mp}", got_s, "spec.select", sel_inp)
+                # the loop with the arguments as Python passes them (None / any container of integers / any integer)
+                self.req(f"pagespy {sel_txt(sel)} {mp}", got_s, "select-py", sel_inp)
+                if dom and e2 is None:
+                    self.req(f"spec.selectpy {sel_txt(sel)} {mp}", got_s, "spec.selectpy", sel_inp)
+                self.ctx.branch("pagenos:" + ("None" if sel is None else "empty" if not sel else
+                                              ("dups" if len(set(sel)) != len(sel) else "") +
+                                              ("+out-of-range" if any(i < 0 or i >= n for i in sel) else "") +
+                                              ("|nothing-in-range" if not any(0 <= i < n for i in sel) else "|some-in-range"))
+                                + ("/" + type(container).__name__ if container is not None else "")
+                                + ("/maxpages<0" if mp < 0 else ""))
                 exp_sel = spec_select(items, sel, mp)
                 beyond = any((not sel or i in sel) and mp and i >= mp for i in range(n))
                 dropped = len(exp_sel) < n
                 self.ctx.case(("sel", self.key, sel, mp), dropped,
                               branch="select:" + ("all" if not sel else "subset") + ("/nolimit" if mp == 0 else "/limit")
                               + ("/selected-beyond-limit" if beyond and sel else ""))
-                if self.in_domain and (e2 is not None or got != exp_sel):
+                if dom and (e2 is not None or got != exp_sel):
                     self.fail("get_pages(page_numbers, maxpages) does not yield exactly the pages whose index is "
                               "selected and below the limit", [s.split(" ")[0] for s in exp_sel],
                               [s.split(" ")[0] for s in got] + ([e2] if e2 else []),
@@ -1119,7 +1141,7 @@ class DocCheck:
                     txt = impl_text(data, container, mp)
                     exp_txt = "".join(page_letter(s) for s in exp_sel) or "-"
                     self.ctx.branch("extract_text")
-                    if self.in_domain and txt != exp_txt:
+                    if dom and txt != exp_txt:
                         self.fail("extract_text(page_numbers, maxpages) does not write exactly the selected pages "
                                   "below the limit, in order", exp_txt, txt,
                                   {"op": "select", "via": "extract_text", "beyond_limit": beyond}, sel=(sel, mp))
@@ -1128,7 +1150,7 @@ class DocCheck:
                         rng.choice([0, 90, 180, 270, -90, 450, 540, 45])
                     boxes = impl_xml_boxes(data, container, mp, rotation)
                     self.ctx.branch(f"rotation-option:{rotation}")
-                    if len(boxes) != len(exp_sel) and self.in_domain:
+                    if len(boxes) != len(exp_sel) and dom:
                         self.fail("extract_text_to_fp(page_numbers, maxpages, rotation) does not write exactly the "
                                   "selected pages below the limit", len(exp_sel), boxes,
                                   {"op": "select", "via": "extract_text_to_fp", "beyond_limit": beyond}, sel=(sel, mp),
@@ -1138,7 +1160,7 @@ class DocCheck:
                         self.req(f"xmlbox {rot} {rotation} {box_txt(mb)}", got_box, "xmlbox",
                                  {"rotate": rot, "rotation": rotation, "mediabox": [str(x) for x in mb]})
                         tot = (rot + rotation) % 360
-                        if self.in_domain and tot % 90 == 0:
+                        if dom and tot % 90 == 0:
                             w_, h_ = mb[2] - mb[0], mb[3] - mb[1]
                             want_box = box_txt((0, 0, w_, h_) if tot % 180 == 0 else (0, 0, h_, w_))
                             if want_box != got_box:
@@ -1150,7 +1172,7 @@ class DocCheck:
                     exp_ep = ";".join(page_letter(s) for s in exp_sel) or "-"
                     got_ep = ";".join(x.split(":")[-1] for x in ep.split(";")) if not ep.startswith("EXC") else ep
                     self.ctx.branch("extract_pages")
-                    if self.in_domain and got_ep != exp_ep:
+                    if dom and got_ep != exp_ep:
                         self.fail("extract_pages(page_numbers, maxpages) does not yield exactly the selected pages "
                                   "below the limit, in order", exp_ep, got_ep,
                                   {"op": "select", "via": "extract_pages", "beyond_limit": beyond}, sel=(sel, mp))
